@@ -191,9 +191,6 @@ impl Stats {
     }
 }
 
-pub fn bits_eq(a: f64, b: f64) -> bool {
-    a.to_bits() == b.to_bits()
-}
 pub fn slice_bits_eq(a: &[f64], b: &[f64]) -> Option<usize> {
     if a.len() != b.len() {
         return Some(a.len().min(b.len()));
